@@ -10,7 +10,7 @@ import (
 // RuleEdits lists the rule-breaking edits (C03): each breaks exactly one documented rule.
 var RuleEdits = []string{
 	"dupOperationID", "pathParamNotInTemplate", "placeholderWithoutParam", "placeholderRepeatedAdjacent", "placeholderRepeatedApart",
-	"pathParamNotRequired", "dupParamInline", "dupParamViaShared", "twoBodyParams", "bodyAndForm",
+	"pathParamNotRequired", "dupParamInline", "dupParamPathLevel", "dupParamViaShared", "twoBodyParams", "bodyAndForm",
 	"paramArrayNoItems", "paramNestedArrayNoItems", "headerArrayNoItems", "schemaArrayNoItems",
 	"requiredUndefined", "requiredUndefinedWithSchemaAdditionalProperties", "unresolvableDefinitionRef", "unresolvableFileRefs", "unresolvableParameterRef", "unresolvableResponseRef",
 	"dupInheritedProperty", "dupInheritedPropertyBesideAllOf", "circularAncestry", "overlappingPaths", "overlappingPaths3",
@@ -208,6 +208,16 @@ func ApplyRuleEdit(t *rapid.T, name string, doc map[string]any, info *SpecInfo) 
 		p := map[string]any{"name": "twin", "in": "query", "type": "string"}
 		q := map[string]any{"name": "twin", "in": "query", "type": "integer"}
 		op["parameters"] = append(paramsOf(op), p, q)
+		return true
+	case "dupParamPathLevel":
+		// the two declarations sit in the parameter list of a path item
+		oi, ok := pickOp(t, info, nil)
+		if !ok {
+			return false
+		}
+		item := pathItem(doc, oi.Path)
+		ps, _ := item["parameters"].([]any)
+		item["parameters"] = append(ps, map[string]any{"name": "twin", "in": "query", "type": "string"}, map[string]any{"name": "twin", "in": "query", "type": "integer"})
 		return true
 	case "dupParamViaShared":
 		if len(info.SharedParams) == 0 {
